@@ -106,6 +106,7 @@ func (s *State) ExpandMacros(program ast.Node) ast.Node {
 		// the macro body runs under the limits of the state expanding it (deadline, depth).
 		evalEnv.Context = s.Context
 		evalEnv.MaxDepth = s.MaxDepth
+		evalEnv.depth, evalEnv.nesting = s.depth, s.nesting // (expanding from inside a recursion, through eval(): the same Go stack.)
 
 		evaluated := evalEnv.Eval(macro.Body)
 
